@@ -39,6 +39,7 @@ type c11Case struct {
 // c11Judge checks the arrival-order log of one connection.
 func c11Judge(c *fw.Ctx, cs c11Case, log []refpeer.Obs) (chunks int, wraps int) {
 	open := map[uint32]bool{} // request ids with an unfinished multi-chunk message
+	other := map[uint32]int{} // unfinished message -> 1 + index of the first chunk of another message that followed it
 	for i, o := range log {
 		chunks++
 		if i == 1 && cs.StartSeq != 0 && cs.Side == "client-channel" {
@@ -64,11 +65,17 @@ func c11Judge(c *fw.Ctx, cs c11Case, log []refpeer.Obs) (chunks int, wraps int) 
 			}
 		}
 		if o.MsgType == "MSG" {
+			// interleaving: chunks of a message, then a chunk of another message, then a chunk of the first again. (A
+			// message its sender gave up half-way stays unfinished for good; what follows it is not "between" its chunks.)
+			if other[o.ReqID] != 0 {
+				cs.Detail = fmt.Sprintf("chunk %d of request %d arrived between the chunks of the unfinished message of request %d", other[o.ReqID]-1, log[other[o.ReqID]-1].ReqID, o.ReqID)
+				c.Violation("c11:chunks-interleaved:"+cs.Side, cs.Detail, cs)
+				return
+			}
 			for id := range open {
 				if id != o.ReqID {
-					cs.Detail = fmt.Sprintf("chunk %d of request %d arrived between the chunks of the unfinished message of request %d", i, o.ReqID, id)
-					c.Violation("c11:chunks-interleaved:"+cs.Side, cs.Detail, cs)
-					return
+					other[id] = i + 1
+					delete(open, id)
 				}
 			}
 			switch o.ChunkType {
@@ -80,6 +87,30 @@ func c11Judge(c *fw.Ctx, cs c11Case, log []refpeer.Obs) (chunks int, wraps int) 
 		}
 	}
 	return
+}
+
+// tripCtx is a context whose owner cancels it at the moment of the trip-th call of Done.
+type tripCtx struct {
+	context.Context
+	n, trip int32
+	once    sync.Once
+	ch      chan struct{}
+}
+
+func (t *tripCtx) Done() <-chan struct{} {
+	if atomic.AddInt32(&t.n, 1) >= t.trip {
+		t.once.Do(func() { close(t.ch) })
+	}
+	return t.ch
+}
+
+func (t *tripCtx) Err() error {
+	select {
+	case <-t.ch:
+		return context.Canceled
+	default:
+		return nil
+	}
 }
 
 type hookStats struct {
@@ -212,6 +243,12 @@ func c11ClientSender(c *fw.Ctx, cs c11Case) {
 					x, xc := context.WithCancel(ctx)
 					xc()
 					rctx = x
+				} else if cs.Hazards && gr.Intn(4) == 0 {
+					// the caller gives up while the request is under way: at the n-th look at the context, which for
+					// a request of four chunks is before, between or after its chunks
+					req = &ua.WriteRequest{NodesToWrite: []*ua.WriteValue{{NodeID: ua.NewNumericNodeID(1, uint32(g*1000+k)), AttributeID: ua.AttributeIDValue,
+						Value: &ua.DataValue{EncodingMask: ua.DataValueValue, Value: ua.MustVariant(big[:18000])}}}}
+					rctx = &tripCtx{Context: ctx, trip: int32(1 + gr.Intn(7)), ch: make(chan struct{})}
 				}
 				if err := sc.SendRequest(rctx, req, nil, func(ua.Response) error { return nil }); err != nil {
 					atomic.AddInt64(&failed, 1)
@@ -275,6 +312,21 @@ func c11ClientSender(c *fw.Ctx, cs c11Case) {
 	for _, sconn := range srv.Conns {
 		<-sconn.Done
 		n, w := c11Judge(c, cs, sconn.Log)
+		if cs.Hazards {
+			fin := map[uint32]bool{}
+			for _, o := range sconn.Log {
+				if o.MsgType == "MSG" && o.ChunkType != 'C' {
+					fin[o.ReqID] = true
+				}
+			}
+			seenHalf := map[uint32]bool{}
+			for _, o := range sconn.Log {
+				if o.MsgType == "MSG" && o.ChunkType == 'C' && !fin[o.ReqID] && !seenHalf[o.ReqID] {
+					seenHalf[o.ReqID] = true
+					c.Class("hazard:message-given-up-between-chunks", 1)
+				}
+			}
+		}
 		total += n
 		c.Class("wraps-observed", int64(w))
 	}
